@@ -451,9 +451,8 @@ def diff_lines(a_path, b_path, limit=50):
     """Line-by-line comparison of model and implementation outputs.  Returns (n_lines, [(index, a, b)])."""
     diffs = []
     n = 0
-    with open(a_path, errors="replace") as fa, open(b_path, errors="replace") as fb:
-        la = fa.read().splitlines()
-        lb = fb.read().splitlines()
+    la = read_lines(a_path)
+    lb = read_lines(b_path)
     n = max(len(la), len(lb))
     for i in range(n):
         x = la[i] if i < len(la) else "<missing>"
@@ -466,5 +465,10 @@ def diff_lines(a_path, b_path, limit=50):
 
 
 def read_lines(path):
-    with open(path, errors="replace") as f:
-        return f.read().splitlines()
+    """Lines separated by "\n" only (str.splitlines would also split on form feed, U+0085, U+2028 ...)."""
+    with open(path, errors="replace", newline="") as f:
+        t = f.read()
+    ls = t.split("\n")
+    if ls and ls[-1] == "":
+        ls.pop()
+    return [l[:-1] if l.endswith("\r") else l for l in ls]
